@@ -459,7 +459,9 @@ impl Planner {
                 if gi >= corpus.extra_from && !fallback_witness {
                     continue;
                 }
-                if census_g[gi].interesting() || hmix(&[self.seed, 0x5E50, gi as u64]) % 64 == 0 {
+                // all filter-passing symbols and a seeded eighth of the rejected ones
+                // (a call that leaves early may leave something behind as well)
+                if census_g[gi].interesting() || hmix(&[self.seed, 0x5E50, gi as u64]) % 8 == 0 {
                     other.push(Item { group: e.id.clone(), text: e.text.clone(), known: kplus[gi], literal: false });
                 }
             }
@@ -480,7 +482,17 @@ impl Planner {
             // (12-40 calls, every position from the ninth on judged: a state that
             // builds up over many calls - a counter, a budget, a growing table -
             // needs more history than any short session has)
-            let configs: [(usize, usize, usize, usize, u64); 2] = if thorough { [(4000, 3, 6, 1, 0x5E55), (300, 12, 29, 8, 0x5E57)] } else { [(250, 3, 6, 1, 0x5E55), (24, 12, 29, 8, 0x5E57)] };
+            fn size_of(text: &str) -> usize {
+                text.split(':').nth(1).and_then(|x| x.split_whitespace().next()).and_then(|x| x.parse().ok()).unwrap_or(0)
+            }
+            let mut by_size: std::collections::BTreeMap<usize, Vec<(bool, usize)>> = std::collections::BTreeMap::new();
+            for (i, it) in lit.iter().enumerate() {
+                by_size.entry(size_of(&it.text)).or_default().push((true, i));
+            }
+            for (i, it) in other.iter().enumerate() {
+                by_size.entry(size_of(&it.text)).or_default().push((false, i));
+            }
+            let configs: [(usize, usize, usize, usize, u64); 2] = if thorough { [(4000, 3, 6, 1, 0x5E55), (300, 12, 29, 8, 0x5E57)] } else { [(400, 3, 6, 1, 0x5E55), (24, 12, 29, 8, 0x5E57)] };
             for (n_sessions, len_lo, len_span, judge_from, salt) in configs {
             for si in 0..n_sessions {
                 let mut r = SplitMix64::new(hmix(&[self.seed, salt, si as u64]));
@@ -499,6 +511,22 @@ impl Planner {
                         let it = if e.0 { &lit[e.1] } else { &other[e.1] };
                         match siblings.get(optable(&it.text)) {
                             Some(list) if list.len() > 1 => list[r.below(list.len())],
+                            _ => (e.0, e.1),
+                        }
+                    } else if j > 0 && r.chance(1, 3) {
+                        // a size relative of an earlier element: same, double or half
+                        // the number of chambers (a symbol and its orientation cover,
+                        // buffers and tables sized by an earlier call)
+                        let e = elems[r.below(j)];
+                        let it = if e.0 { &lit[e.1] } else { &other[e.1] };
+                        let n = size_of(&it.text);
+                        let target = match r.below(3) {
+                            0 => n,
+                            1 => 2 * n,
+                            _ => if n % 2 == 0 { n / 2 } else { 2 * n },
+                        };
+                        match by_size.get(&target) {
+                            Some(list) if !list.is_empty() => list[r.below(list.len())],
                             _ => (e.0, e.1),
                         }
                     } else if other.is_empty() || r.chance(1, 2) {
